@@ -218,7 +218,7 @@ EXTRA = {
     "that fails while packing followed by good records of that type) is explored the same way.",
     "C06": " A solver-built unacceptable definition whose identifier input coincides with that of a registered legitimate descriptor must still be refused when it arrives after it "
     "(stream and JSON channel).",
-    "C07": " A typed family (61 helper / comparison / membership programs over ipaddress v4/v6, ipnetwork, uri, path, string[], bytes, float, command and filesize fields) and programs "
+    "C07": " A typed family (76 helper / comparison / membership programs over ipaddress v4/v6, ipnetwork, uri, path, string[], bytes, float, command and filesize fields) and programs "
     "with several generator expressions (sequential reuse of a loop variable must evaluate; nested re-binding may be refused but never mis-evaluated) are decided the same way; every "
     "program is evaluated by a selector object that matched a same-name record of another layout before.",
     "C08": " The other operand also ranges over typed field matchers and fields of 23 field types (8 operators x both positions x both engines), and every selector object has matched "
